@@ -20,12 +20,16 @@ package pathdb
 
 import (
 	"bytes"
+	"context"
 	"encoding/binary"
 	"encoding/json"
 	"fmt"
+	"log/slog"
 	"os"
 	"regexp"
+	"runtime"
 	"sort"
+	"strconv"
 	"strings"
 	"sync"
 	"testing"
@@ -39,6 +43,7 @@ import (
 	"github.com/ethereum/go-ethereum/internal/verif/crashkv"
 	"github.com/ethereum/go-ethereum/internal/verif/mc"
 	"github.com/ethereum/go-ethereum/internal/verif/vos"
+	"github.com/ethereum/go-ethereum/log"
 	"github.com/ethereum/go-ethereum/rlp"
 	"github.com/ethereum/go-ethereum/trie"
 	"github.com/ethereum/go-ethereum/trie/trienode"
@@ -169,6 +174,50 @@ func (c c20Config) pathdbConfig(fs *vos.FS) *Config {
 	return cfg
 }
 
+// c20CritLog is a log handler that remembers, per goroutine, the last log.Crit record
+// (the message says which recovery step gave up).
+type c20CritLog struct {
+	mu   *sync.Mutex
+	last map[uint64]string
+}
+
+func c20Gid() uint64 {
+	var buf [64]byte
+	n := runtime.Stack(buf[:], false)
+	f := strings.Fields(string(buf[:n]))
+	if len(f) < 2 {
+		return 0
+	}
+	id, _ := strconv.ParseUint(f[1], 10, 64)
+	return id
+}
+
+func (h *c20CritLog) Enabled(_ context.Context, level slog.Level) bool { return level >= log.LevelCrit }
+func (h *c20CritLog) WithGroup(string) slog.Handler                  { return h }
+func (h *c20CritLog) WithAttrs([]slog.Attr) slog.Handler             { return h }
+func (h *c20CritLog) Handle(_ context.Context, r slog.Record) error {
+	msg := r.Message
+	r.Attrs(func(a slog.Attr) bool {
+		msg += fmt.Sprintf(" %s=%v", a.Key, a.Value)
+		return true
+	})
+	h.mu.Lock()
+	h.last[c20Gid()] = msg
+	h.mu.Unlock()
+	return nil
+}
+
+func (h *c20CritLog) take() string {
+	h.mu.Lock()
+	defer h.mu.Unlock()
+	g := c20Gid()
+	m := h.last[g]
+	delete(h.last, g)
+	return m
+}
+
+var c20Crit = &c20CritLog{mu: new(sync.Mutex), last: map[uint64]string{}}
+
 // c20Open opens the database stack on (kv, fs) with the real constructors.
 func c20Open(kv ethdb.KeyValueStore, fs *vos.FS, cfg c20Config) (ethdb.Database, *Database, error) {
 	disk, err := rawdb.Open(kv, rawdb.OpenOptions{Ancient: fs.Root() + "/anc"})
@@ -182,6 +231,9 @@ func c20Open(kv ethdb.KeyValueStore, fs *vos.FS, cfg c20Config) (ethdb.Database,
 	})
 	if err != nil {
 		disk.Close()
+		if msg := c20Crit.take(); msg != "" {
+			return nil, nil, fmt.Errorf("pathdb.New gives up with log.Crit: %s\n%v", msg, err)
+		}
 		return nil, nil, fmt.Errorf("pathdb.New: %v", err)
 	}
 	return disk, db, nil
@@ -215,7 +267,7 @@ func (s *c20Sys) enabled(op int) bool {
 		r := s.db.tree.bottom().rootHash()
 		return r != types.EmptyRootHash
 	case c20OpCommit:
-		return s.m.head != s.db.tree.bottom().rootHash() || true
+		return s.m.head != s.db.tree.bottom().rootHash()
 	}
 	return true
 }
@@ -287,6 +339,7 @@ func (s *c20Sys) apply(op int) error {
 			return fmt.Errorf("disk close: %v", err)
 		}
 		s.disk = nil
+		s.kv.SyncKeyValue() // closing a pebble/leveldb store makes its content durable
 		disk, db, err := c20Open(s.kv, s.fs, s.cfg)
 		if err != nil {
 			return fmt.Errorf("clean restart: %v", err)
@@ -438,7 +491,14 @@ func c20Recover(kvImg *memorydb.Database, fsImg *vos.FS, cfg c20Config, ctx *c20
 	if R != types.EmptyRootHash {
 		target := m.parent[R]
 		if !db.Recoverable(target) {
-			return "", fmt.Errorf("after recovery the parent %x of the disk state %x (id %d) is not recoverable", target[:4], R[:4], bottom.stateID())
+			why := ""
+			if rawdb.ReadStateID(kvImg, target) == nil {
+				why = ": its root->id lookup entry is missing from the key-value store"
+				if cfg.journalFS && bottom.stateID() > rawdb.ReadPersistentStateID(kvImg) {
+					why += " (lost with the unsynced KV tail while the fsynced journal file restored the disk layer)"
+				}
+			}
+			return "", fmt.Errorf("after recovery the parent %x of the disk state %x (id %d) is not recoverable%s", target[:4], R[:4], bottom.stateID(), why)
 		}
 		if err := db.Recover(target); err != nil {
 			return "", fmt.Errorf("after recovery Recover(%x) from the disk state %x failed: %v", target[:4], R[:4], err)
@@ -509,6 +569,19 @@ func c20Class(err error) string {
 
 func (fd *c20Findings) add(c c20Case, err error, tag string) {
 	cl := c20Class(err)
+	ctxs := "journal=kv"
+	if strings.Contains(c.Cfg, "filejournal") {
+		ctxs = "journal=file"
+	}
+	if c.KvKeep < c.KvK {
+		ctxs += ",kv=lossy"
+	} else {
+		ctxs += ",kv=kept"
+	}
+	if len(c.Loss.Pick) > 0 || c.Loss.NS > 0 {
+		ctxs += ",fs=lossy"
+	}
+	cl = "[" + ctxs + "] " + cl
 	if tag != "" {
 		cl = "{" + tag + "} recovery fails"
 	}
@@ -808,6 +881,9 @@ func TestVerif_C20(t *testing.T) {
 	mc.Run(t, "C20", func(r *mc.R) {
 		vos.ExitPanics(true)
 		defer vos.ExitPanics(false)
+		oldLog := log.Root()
+		log.SetDefault(log.NewLogger(c20Crit))
+		defer log.SetDefault(oldLog)
 		oldMax := maxDiffLayers
 		defer func() { maxDiffLayers = oldMax }()
 		maxDiffLayers = 1
@@ -825,6 +901,7 @@ func TestVerif_C20(t *testing.T) {
 		r.Bound("depth", depth)
 		r.Bound("maxDiffLayers", 1)
 		r.Assume("KV crash model: batches atomic, ordered, durable up to the last SyncKeyValue, any prefix of later entries may survive; FS crash model as in vos/crash.go without torn appends (byte-level freezer recovery is C24); KV and FS losses independent")
+		r.Assume("closing the key-value store (clean shutdown) makes its content durable")
 		r.Assume("log.Crit is observed as a panic (log package's os.Exit routed through vos.Exit)")
 		r.Assume("reference model: root -> account set and root -> parent root for every state produced by the history; trie root/leaf encoding taken from the trie package")
 		configs := []c20Config{
